@@ -578,4 +578,108 @@ theorem near_run (n : Nat) (k : κ) (h : List (Op κ ν)) :
       (fun o ho => hno o (List.mem_cons_of_mem _ ho))
     have e : j + (h.length + 1) = j + 1 + h.length := by omega
     rw [e]; exact this
+/-! ### a recently used template keeps its identity (cached_template level) -/
+
+theorem lookup_dropLast (k : κ) : ∀ (xs : List (κ × ν)), k ∈ keys xs →
+    posOf k (keys xs) + 1 < xs.length → lookup k xs.dropLast = lookup k xs := by
+  intro xs
+  induction xs with
+  | nil => intro h; simp [keys] at h
+  | cons p xs ih =>
+    intro hm hp
+    cases xs with
+    | nil => simp [keys, posOf] at hp
+    | cons q qs =>
+      rw [List.dropLast_cons_cons]
+      by_cases e : p.1 = k
+      · simp [lookup, e]
+      · have hu : posOf k (keys (p :: q :: qs)) = posOf k (keys (q :: qs)) + 1 := by
+          show (if p.1 = k then 0 else posOf k (keys (q :: qs)) + 1) = _
+          rw [if_neg e]
+        have hm' : k ∈ keys (q :: qs) := by
+          have : k ∈ p.1 :: keys (q :: qs) := hm
+          rcases List.mem_cons.mp this with h1 | h1
+          · exact absurd h1.symm e
+          · exact h1
+        have := ih hm' (by rw [hu] at hp; simp only [List.length_cons] at hp ⊢; omega)
+        show (if p.1 = k then some p.2 else lookup k (q :: qs).dropLast) =
+          (if p.1 = k then some p.2 else lookup k (q :: qs))
+        rw [if_neg e, if_neg e, this]
+
+/-- forward direction of `lookup_cset_other`: storing another key keeps `k`'s value while `k`
+is not the last entry of a full cache. -/
+theorem lookup_cset_keeps (c : Lru κ ν) (n : Nat) (hc : c.cap = some n) (k k' : κ) (t v : ν)
+    (hne : k ≠ k') (hl : lookup k c.items = some t) (hp : posOf k (keys c.items) + 1 < n) :
+    lookup k (cset c k' v).items = some t := by
+  have hm : k ∈ keys c.items := lookup_some_key hl
+  have e : ¬ k' = k := fun e => hne e.symm
+  unfold cset
+  have hd : isDisabled c = false := by
+    unfold isDisabled; rw [hc]; simp; omega
+  rw [hd]
+  simp only [Bool.false_eq_true, if_false]
+  split
+  · show (if k' = k then some v else lookup k (erase k' c.items)) = some t
+    rw [if_neg e, lookup_erase_ne _ hne, hl]
+  · split
+    · rename_i hfull
+      have hlen : n ≤ c.items.length := by
+        unfold isFull at hfull; rw [hc] at hfull; simpa using hfull
+      show (if k' = k then some v else lookup k c.items.dropLast) = some t
+      rw [if_neg e, lookup_dropLast k c.items hm (by omega), hl]
+    · show (if k' = k then some v else lookup k c.items) = some t
+      rw [if_neg e, hl]
+
+/-- `k` is cached with value `t` and at most `j` places from the most-recently-used end. -/
+def TNear (k : κ) (t : Tmpl κ) (j : Nat) (c : Lru κ (Tmpl κ)) : Prop :=
+  lookup k c.items = some t ∧ posOf k (keys c.items) ≤ j
+
+theorem TNear.near {k : κ} {t : Tmpl κ} {j : Nat} {c : Lru κ (Tmpl κ)} (h : TNear k t j c) :
+    Near k j c := ⟨lookup_some_key h.1, h.2⟩
+
+/-- One `cached_template` call (for any source) keeps a recently used template cached, with the
+same object, at most one place further from the front. -/
+theorem tnear_step (s : TState κ) (n : Nat) (hc : s.cache.cap = some n) (k k' : κ) (t : Tmpl κ)
+    (j : Nat) (hn : TNear k t j s.cache) (hj : j + 1 < n) :
+    TNear k t (j + 1) (cachedTemplate s k').1.cache ∧ (cachedTemplate s k').1.cache.cap = some n ∧
+    (k' = k → (cachedTemplate s k').2 = t) := by
+  unfold cachedTemplate
+  cases hl : lookup k' s.cache.items with
+  | some t' =>
+    simp only [cget, hl]
+    refine ⟨⟨?_, (near_front s.cache k k' t' j hn.near).2⟩, hc, ?_⟩
+    · by_cases e : k' = k
+      · subst e
+        have : t' = t := Option.some.inj (hl.symm.trans hn.1)
+        simp [lookup, this]
+      · have hne : k ≠ k' := fun e' => e e'.symm
+        show (if k' = k then some t' else lookup k (erase k' s.cache.items)) = some t
+        rw [if_neg e, lookup_erase_ne _ hne, hn.1]
+    · intro e; subst e
+      exact Option.some.inj (hl.symm.trans hn.1)
+  | none =>
+    simp only [cget, hl]
+    have e : ¬ k' = k := by
+      intro e; subst e; have := hl.symm.trans hn.1; cases this
+    have hne : k ≠ k' := fun e' => e e'.symm
+    refine ⟨⟨?_, ?_⟩, ?_, fun e' => absurd e' e⟩
+    · exact lookup_cset_keeps s.cache n hc k k' t _ hne hn.1 (by have := hn.2; omega)
+    · exact (near_step s.cache n hc k j hn.near hj (Op.set k' { ident := s.next, key := k' })
+        (by intro h; cases h)).2
+    · have := step_cap s.cache (Op.set k' { ident := s.next, key := k' })
+      simpa [step, hc] using this
+
+theorem tnear_run (n : Nat) (k : κ) (t : Tmpl κ) (ks : List κ) :
+    ∀ (s : TState κ) (j : Nat), s.cache.cap = some n → TNear k t j s.cache → j + ks.length < n →
+      TNear k t (j + ks.length) (tRun s ks).1.cache ∧ (tRun s ks).1.cache.cap = some n := by
+  induction ks with
+  | nil => intro s j hc hn _; exact ⟨by simpa [tRun] using hn, by simpa [tRun] using hc⟩
+  | cons k' ks ih =>
+    intro s j hc hn hl
+    simp only [List.length_cons] at hl
+    have h1 := tnear_step s n hc k k' t j hn (by omega)
+    have := ih (cachedTemplate s k').1 (j + 1) h1.2.1 h1.1 (by omega)
+    simp only [tRun, List.length_cons]
+    have e : j + (ks.length + 1) = j + 1 + ks.length := by omega
+    rw [e]; exact this
 end Djc.Proofs.Lru
